@@ -172,10 +172,16 @@ def task_compose(t):
                     except Exception as e:  # noqa
                         rec('compose1-exception:' + type(e).__name__, 'raised %r' % (e,), case)
         for k in sizes:
+            Gk = G
+            if k == '3s':
+                # three simultaneous replacements over a reduced family (constants, literals of
+                # replaced variables, a conjunction, a parity, majority)
+                k = 3
+                Gk = [g for i_, g in enumerate(G) if i_ in (0, 1, 2, 3, 5, 8, 9, len(G) - 2)]
             if k < 2:
                 continue
             for keys in itertools.combinations(names, k):
-                for gs in itertools.product(G, repeat=k):
+                for gs in itertools.product(Gk, repeat=k):
                     case = dict(task=t[:-1] + (fu,), u=U.fmt(fu),
                                 d={x: U.fmt(g) for x, g in zip(keys, gs)})
                     try:
@@ -291,7 +297,7 @@ def plan(tier):
             for ctx in ('K0', 'K1'):
                 ts.append(('cr', 3, oi, ctx, 0, 1, None))
             for si in range(2):
-                ts.append(('compose', 3, oi, ('K0', 'K1')[oi % 2], (1, 2), si, 2, None))
+                ts.append(('compose', 3, oi, ('K0', 'K1')[oi % 2], (1, 2, '3s'), si, 2, None))
             ts.append(('autoref', 3, oi, 0, 1, None))
     else:
         for oi in range(6):
@@ -309,7 +315,7 @@ def plan(tier):
     return ts
 
 
-replay = sweep.replay_by_task(dispatch)
+replay = sweep.replay_with_machines(sweep.replay_by_task(dispatch))
 
 
 def main(tier, t0):
@@ -324,4 +330,5 @@ def main(tier, t0):
               'not the identity); distinct by construction'),
         assumptions=['truth-table model of simultaneous substitution (mc/ref.py compose)',
                      'sub-sweep (iii) for |d|>=2 ranges over family G only (bounded alphabet)'],
-        replay_fn=replay)
+        replay_fn=replay,
+        machines=__import__('mc.machines', fromlist=['x']).mixed_machines(tier))
